@@ -13,7 +13,7 @@ RULE = (
     "length scale k, translation t); each state runs the real AeroPoint on the base and the transformed configuration and checks the "
     "scaling law on every output, plus the L/D/coefficient composition identities in the base state; non-trivial = forces non-zero"
 )
-ASSUMPTIONS = ["finite alphabets for lambda, k, t, alpha, beta; <=2 surfaces, nx<=3", "OpenMDAO/NumPy/SciPy trusted"]
+ASSUMPTIONS = ["finite alphabets for lambda, k, t, alpha, beta (both signs); <=2 surfaces (all-half, all-full, mixed symmetry, down-loaded tail with negative induced drag), nx<=3", "OpenMDAO/NumPy/SciPy trusted"]
 BOUND = {"quick": "k in {1e-3,0.5,2,1e2}", "thorough": "k in {1e-5..1e4}"}
 TOL = 1e-9
 
